@@ -436,3 +436,138 @@ def check_finally_jumps(chk, ix, rule="RF7", modules=None):
                                  file=m.relpath, line=line, stmt="def " + node.name))
     if n < 5:
         raise AnalysisError("RF7: only %d functions with a finally block found" % n)
+
+
+WHAT["RF8"] = "functions whose result must depend on their input alone keep no memory: nothing they run writes a module-level or class-level container (a memo would answer later calls from an earlier input)"
+
+_RF8_CONTROL = '''
+_SEEN = {}
+def control(name):
+    if name not in _SEEN:
+        _SEEN[name] = len(name)
+    return _SEEN[name]
+'''
+
+_CONTAINER_CALLS = {"dict", "list", "set", "OrderedDict", "defaultdict", "WeakValueDictionary", "WeakKeyDictionary", "Counter", "deque"}
+_MUTATORS = {"append", "extend", "insert", "update", "setdefault", "add", "pop", "popitem", "clear", "remove", "discard", "appendleft", "__setitem__"}
+
+
+def _is_container_expr(e):
+    if isinstance(e, (ast.Dict, ast.List, ast.Set, ast.DictComp, ast.ListComp, ast.SetComp)):
+        return True
+    return isinstance(e, ast.Call) and unparse(e.func).split(".")[-1] in _CONTAINER_CALLS
+
+
+def shared_container_writes(fnode, module_containers, class_containers, self_names=("self", "cls")):
+    """writes in fnode's own body to NAME[...] / NAME.mutator(...) for a module-level container NAME, to
+    self.ATTR[...] / cls.ATTR[...] / Class.ATTR[...] (and .mutator()) for a class-level container ATTR, and to globals"""
+    hits = []
+    globals_declared = set()
+
+    def base_desc(e):
+        # e: the expression that is subscripted / whose mutator is called
+        if isinstance(e, ast.Name) and e.id in module_containers:
+            return "module-level %s" % e.id
+        if isinstance(e, ast.Attribute) and e.attr in class_containers:
+            root = e.value
+            if isinstance(root, ast.Name) and (root.id in self_names or root.id in class_containers[e.attr]):
+                return "class-level %s.%s" % (sorted(class_containers[e.attr])[0], e.attr)
+            if isinstance(root, ast.Attribute) and root.attr == "__class__":
+                return "class-level %s" % e.attr
+            if isinstance(root, ast.Call) and unparse(root.func) == "type":
+                return "class-level %s" % e.attr
+        return None
+
+    def own(n):
+        for c in ast.iter_child_nodes(n):
+            if isinstance(c, (ast.FunctionDef, ast.AsyncFunctionDef, ast.ClassDef, ast.Lambda)):
+                continue
+            yield c
+            for x in own(c):
+                yield x
+    for n in own(fnode):
+        if isinstance(n, ast.Global):
+            globals_declared.update(n.names)
+        targets = []
+        if isinstance(n, ast.Assign):
+            targets = list(n.targets)
+        elif isinstance(n, (ast.AugAssign, ast.AnnAssign)):
+            targets = [n.target]
+        elif isinstance(n, ast.Delete):
+            targets = list(n.targets)
+        flat = []
+        for t in targets:
+            flat.extend(t.elts if isinstance(t, (ast.Tuple, ast.List)) else [t])
+        for t in flat:
+            if isinstance(t, ast.Subscript):
+                d = base_desc(t.value)
+                if d:
+                    hits.append((d, n.lineno))
+            elif isinstance(t, ast.Name) and t.id in globals_declared:
+                hits.append(("global %s" % t.id, n.lineno))
+        if isinstance(n, ast.Call) and isinstance(n.func, ast.Attribute) and n.func.attr in _MUTATORS:
+            d = base_desc(n.func.value)
+            if d:
+                hits.append((d, n.lineno))
+    return hits
+
+
+def check_memoryless(chk, ix, entries, rule="RF8", depth=3):
+    """entries: 'module:function' / 'module:Class.method' names.  The functions they reach through resolvable calls
+    (same package, up to `depth` levels) are scanned too."""
+    from .index import FuncInfo, ClassInfo
+    chk.rule(rule, WHAT["RF8"])
+    ctl_mod = ast.parse(_RF8_CONTROL)
+    if not shared_container_writes(ctl_mod.body[1], {"_SEEN"}, {}):
+        raise AnalysisError("RF8 self-test: the positive control is not reported")
+    mod_containers = {}
+    class_containers = {}
+    for m in ix.modules.values():
+        mod_containers[m.name] = {k for k, v in m.consts.items() if _is_container_expr(v)}
+        for ci in m.classes.values():
+            for k, v in ci.class_consts.items():
+                if _is_container_expr(v):
+                    class_containers.setdefault(k, set()).add(ci.name)
+    for entry in entries:
+        f0 = ix.func(entry)
+        if f0 is None:
+            raise AnalysisError("anchor missing: %s" % entry)
+        seen, work = {}, [(f0, 0, entry)]
+        while work:
+            f, d, via = work.pop()
+            if f.fullname in seen:
+                continue
+            seen[f.fullname] = via
+            if d >= depth:
+                continue
+            for c in ast.walk(f.node):
+                if not isinstance(c, ast.Call):
+                    continue
+                tgt = None
+                try:
+                    r = ix.resolve_expr(f.module, c.func)
+                except Exception:       # noqa
+                    r = None
+                if isinstance(r, FuncInfo):
+                    tgt = r
+                elif isinstance(r, ClassInfo):
+                    tgt = r.lookup("__init__")
+                elif isinstance(c.func, ast.Attribute) and isinstance(c.func.value, ast.Name) and c.func.value.id in ("self", "cls") and f.cls is not None:
+                    tgt = f.cls.lookup(c.func.attr)
+                if isinstance(tgt, FuncInfo) and tgt.fullname not in seen:
+                    work.append((tgt, d + 1, via + " -> " + tgt.fullname.split(":")[-1]))
+        chk.instance(rule)
+        bad = []
+        for fullname, via in sorted(seen.items()):
+            f = ix.func(fullname)
+            if f is None:
+                continue
+            for (what, line) in shared_container_writes(f.node, mod_containers.get(f.module.name, set()), class_containers):
+                bad.append((f, what, line, via))
+        if not bad:
+            chk.ok(rule, {"entry": entry, "functions scanned": len(seen), "writes to shared containers": 0}, nontrivial_key=entry)
+        for (f, what, line, via) in bad:
+            chk.fail(Finding(rule, f.fullname, "writes %s" % what,
+                             "%s (reached from %s) writes the %s container at line %d: what a call returns then depends on earlier calls "
+                             "(another input with the same key, a file that changed meanwhile, another class using the same table)"
+                             % (f.fullname, via, what, line), file=f.file, line=line, stmt="def " + f.node.name))
